@@ -9,6 +9,7 @@ import os
 import shutil
 import tempfile
 
+import c04_means
 import flowutil
 import sheetgen
 from common import run_cli_mode
@@ -638,9 +639,11 @@ def run(ctx):
     for d in fixture_docs()[: (100 if thorough else 12)]:
         ctx.count("src_fixture")
         judge(ctx, d, nontrivial, samples, "fixture")
+        c04_means.tie(ctx, d, "fixture")
     for key, d in directed_docs():
         ctx.count("src_directed")
         judge(ctx, d, nontrivial, samples, "directed:" + key)
+        c04_means.tie(ctx, d, "directed:" + key)
     for i in range(n):
         rng = ctx.rng
         x = rng.random()
@@ -670,6 +673,8 @@ def run(ctx):
         if rng.random() < 0.25:
             ctx.count("cases_retyped", retype_cases(rng, r[1]["flows"][0], r[1].get("groups")))
         judge(ctx, r[1], nontrivial, samples, label)
+        c04_means.tie(ctx, r[1], label)
+    c04_means.generated(ctx, (400 if thorough else 40) * ctx.scale)
     ctx.v.coverage["programs"] = ctx.stats.get("round_trips_ok", 0)
     ctx.v.coverage["disagreements_checked"] = len(ctx.disagreements) + sum(ctx.v.viol_by_key.values()) + sum(ctx.v.known_hits.values())
     ctx.v.coverage["distinct_nontrivial"] = len(nontrivial)
